@@ -26,4 +26,6 @@ mod mtc_params;
 pub use htc_gadget::*;
 pub use mtc::MapToCurveInstructions;
 pub use mtc_cpu::MapToCurveCPU;
+#[cfg(feature = "verif-hooks")]
+pub use mtc_cpu::verif_map_to_jubjub_steps;
 pub use mtc_params::MapToEdwardsParams;
